@@ -10,6 +10,7 @@ import (
 	"github.com/orda-io/orda/client/pkg/operations"
 	"github.com/orda-io/orda/client/pkg/utils"
 	"github.com/wI2L/jsondiff"
+	"reflect"
 	"strconv"
 	"strings"
 )
@@ -269,6 +270,9 @@ func (its *document) PutToObject(key string, value interface{}) (Document, error
 	if err := its.assertLocalOp("PutToObject", TypeJSONObject, false); err != nil {
 		return nil, err
 	}
+	if key == "" || isNullValue(value) {
+		return nil, errors.DatatypeIllegalParameters.New(its.L(), "neither empty key nor null value is not allowed")
+	}
 	op := operations.NewDocPutInObjOperation(its.snapshot().getCreateTime(), key, value)
 	removed, err := its.SentenceInTx(its.TxCtx, op, true)
 	if err != nil {
@@ -337,6 +341,9 @@ func (its *document) InsertToArray(pos int, values ...interface{}) (Document, er
 	if err := arr.validateInsertPosition(pos); err != nil {
 		return its, err
 	}
+	if hasNullValue(values) {
+		return its, errors.DatatypeIllegalParameters.New(its.L(), "null value is not allowed")
+	}
 	op := operations.NewDocInsertToArrayOperation(its.snapshot().getCreateTime(), pos, values)
 	if _, err := its.SentenceInTx(its.TxCtx, op, true); err != nil {
 		return its, err
@@ -381,6 +388,9 @@ func (its *document) UpdateManyInArray(pos int, values ...interface{}) ([]Docume
 	arr := its.snapshot().(*jsonArray)
 	if err := arr.validateGetRange(pos, len(values)); err != nil {
 		return nil, err
+	}
+	if hasNullValue(values) {
+		return nil, errors.DatatypeIllegalParameters.New(its.L(), "null value is not allowed")
 	}
 	op := operations.NewDocUpdateInArrayOperation(its.snapshot().getCreateTime(), pos, values)
 	oldOnes, err := its.SentenceInTx(its.TxCtx, op, true)
@@ -432,6 +442,25 @@ func (its *document) toDocument(child jsonType) Document {
 		SnapshotDatatype: datatypes.NewSnapshotDatatype(its.BaseDatatype, child),
 	}
 }
+
+// isNullValue tells whether v is nil or a nil pointer; no JSON type can be made from either.
+func isNullValue(v interface{}) bool {
+	if v == nil {
+		return true
+	}
+	rv := reflect.ValueOf(v)
+	return rv.Kind() == reflect.Ptr && rv.IsNil()
+}
+
+func hasNullValue(values []interface{}) bool {
+	for _, v := range values {
+		if isNullValue(v) {
+			return true
+		}
+	}
+	return false
+}
+
 func (its *document) assertLocalOp(opName string, ofJSON TypeOfJSON, workOnGarbage bool) errors.OrdaError {
 	if its.GetTypeOfJSON() != ofJSON {
 		return errors.DatatypeInvalidParent.New(its.L(), opName, " is not allowed to ")
